@@ -489,6 +489,10 @@ fn tag_sx(t: &oal_compiler::verif::Tag) -> String {
     }
 }
 
+fn text_sx(s: &str) -> String {
+    list(s.chars().map(|c| (c as u32).to_string()).collect())
+}
+
 fn status(s: &atom::HttpStatus) -> String {
     match s {
         atom::HttpStatus::Code(c) => format!("(0 {})", c),
@@ -613,8 +617,22 @@ fn one(files: &HashMap<String, String>, main: &str) -> Value {
     if let Some(why) = tr.unsupported.clone() {
         return json!({"status": "unsupported", "why": why});
     }
+    let mut doc = Value::Null;
+    let mut names = Vec::new();
     let result = match std::panic::catch_unwind(std::panic::AssertUnwindSafe(|| oal_compiler::eval::eval(&mods))) {
-        Ok(Ok(s)) => format!("(0 {})", tr.spec(&s)),
+        Ok(Ok(s)) => {
+            let dump = tr.spec(&s);
+            for (id, _) in s.refs.iter() {
+                names.push(text_sx(id.as_ref()));
+            }
+            // the document the real Builder makes of this Spec (no base)
+            doc = match std::panic::catch_unwind(std::panic::AssertUnwindSafe(|| oal_openapi::Builder::new(s).into_openapi())) {
+                // serialised to text: the order of IndexMap entries and struct fields is kept (a serde_json::Value would sort keys)
+                Ok(api) => json!({"text": serde_json::to_string(&api).unwrap_or_default()}),
+                Err(_) => json!({"builder_panic": crate::l_compile::last_panic()}),
+            };
+            format!("(0 {})", dump)
+        }
         Ok(Err(e)) => {
             use oal_compiler::errors::Kind;
             let k = match e.kind {
@@ -629,7 +647,10 @@ fn one(files: &HashMap<String, String>, main: &str) -> Value {
             format!("(2 {})", panic_site(&msg))
         }
     };
-    json!({"status": "ok", "prog": prog, "tenv": tenv, "result": result, "strings": tr.strings, "nmods": locs.len()})
+    let strs_sx = list(tr.strings.iter().map(|s| text_sx(s)).collect());
+    let floats: Vec<f64> = tr.floats.iter().map(|b| f64::from_bits(*b)).collect();
+    json!({"status": "ok", "prog": prog, "tenv": tenv, "result": result, "strings": tr.strings, "strs_sx": strs_sx,
+           "names_sx": list(names), "floats": floats, "doc": doc, "nmods": locs.len()})
 }
 
 pub fn run() {
